@@ -65,6 +65,13 @@ pub enum Body {
 
 pub const CAPS: [usize; 4] = [4096, 8192, 65536, 1 << 20];
 
+/// thorough tier: generators may draw deeper (bigger data, longer virtual waits)
+pub static THOROUGH: std::sync::atomic::AtomicBool = std::sync::atomic::AtomicBool::new(false);
+
+pub fn thorough() -> bool {
+    THOROUGH.load(std::sync::atomic::Ordering::Relaxed)
+}
+
 pub fn gen_knobs(rng: &mut Rng) -> Knobs {
     let ncap = 1 + rng.below(4) as usize;
     let caps = (0..ncap).map(|_| *rng.pick(&CAPS)).collect();
@@ -107,7 +114,7 @@ pub fn gen_len(rng: &mut Rng, cap: usize, big_ok: bool) -> usize {
         8 => 4096 * rng.range(1, 8) as usize,
         9 => rng.range(5000, 70_000) as usize,
         10 => rng.range(70_000, 600_000) as usize,
-        _ => rng.range(600_000, 4 << 20) as usize,
+        _ => rng.range(600_000, if thorough() { 8 << 20 } else { 4 << 20 }) as usize,
     }
 }
 
